@@ -4,7 +4,8 @@ From BW Require Import Merge.
 From BWP Require Import TextFacts Keys_proofs C01_proofs Run_proofs Merge_proofs.
 From Coq Require Import Permutation.
 From BW Require Import RunCase.
-From BWP Require Import Context_proofs Order_proofs.
+From BWP Require Import Context_proofs Order_proofs Main_proofs MainCompose_proofs.
+From BW Require Import Main.
 
 (* Permuting the files of the context and the blocks inside each file (walk order, hash-map iteration order) yields the same exit status and the same diagnostics and errors up to permutation. *)
 Theorem C20_files_and_blocks_any_order : forall o en dis ctx ctx', ctx_reorder ctx ctx' ->
@@ -103,3 +104,31 @@ Theorem C20_run_walk_and_section_order : forall c c' d d' pfs pfs',
   exit_code (model_run c) = exit_code (model_run c').
 Proof. exact model_run_walk_and_section_order. Qed.
 Print Assumptions C20_run_walk_and_section_order.
+
+(* Through main: permuting the files leaves diagnostics and errors (as multisets), the panic flag and the process exit status unchanged. *)
+Theorem C20_process_walk_order : forall a p ms ms' tb cd,
+  plan_of a = Ok p -> ca_list a = false ->
+  Permutation ms ms' -> NoDup (map (fun m => rf_path (mf_file m)) ms) ->
+  (forall ch, model_changes (main_case a p ms tb cd) = Ok ch ->
+     NoDup (map fst ch) /\
+     (forall q l, In (q, l) ch -> exists m, In m ms /\ rf_path (mf_file m) = q)) ->
+  exists v v', main_model a ms tb cd = MRun v /\ main_model a ms' tb cd = MRun v' /\
+    Permutation (vr_diags v) (vr_diags v') /\ Permutation (vr_errs v) (vr_errs v') /\
+    vr_panic v = vr_panic v' /\
+    main_exit (main_model a ms tb cd) = main_exit (main_model a ms' tb cd).
+Proof. exact main_run_file_order. Qed.
+Print Assumptions C20_process_walk_order.
+
+(* The same for the list subcommand. *)
+Theorem C20_process_list_walk_order : forall a p ms ms' tb cd,
+  plan_of a = Ok p -> ca_list a = true ->
+  Permutation ms ms' -> NoDup (map (fun m => rf_path (mf_file m)) ms) ->
+  (forall ch, model_changes (main_case a p ms tb cd) = Ok ch ->
+     NoDup (map fst ch) /\
+     (forall q l, In (q, l) ch -> exists m, In m ms /\ rf_path (mf_file m) = q)) ->
+  exists cr cr', main_model a ms tb cd = MList cr /\ main_model a ms' tb cd = MList cr' /\
+    Permutation (cr_ctx cr) (cr_ctx cr') /\ Permutation (cr_errs cr) (cr_errs cr') /\
+    cr_panic cr = cr_panic cr' /\
+    main_exit (main_model a ms tb cd) = main_exit (main_model a ms' tb cd).
+Proof. exact main_list_file_order. Qed.
+Print Assumptions C20_process_list_walk_order.
